@@ -424,19 +424,34 @@ func (c *Crew) toMachines(ctx context.Context, msg interface{}) ([]string, error
 			}
 			return []string{vv}, nil
 		case []string:
-			return vv, nil
+			return uniqueMids(vv), nil
 		case []interface{}:
-			mids := make([]string, len(vv))
-			for i, x := range vv {
+			mids := make([]string, 0, len(vv))
+			for _, x := range vv {
 				switch vv := x.(type) {
 				case string:
-					mids[i] = vv
+					mids = append(mids, vv)
 				}
 			}
-			return mids, nil
+			return uniqueMids(mids), nil
 		}
 	}
 	return c.allMachines(), nil
+}
+
+// uniqueMids removes repeated machine ids (keeping the order of first
+// occurrence): a message is presented to a machine once even if its
+// "to" list names that machine more than once.
+func uniqueMids(mids []string) []string {
+	seen := make(map[string]bool, len(mids))
+	acc := make([]string, 0, len(mids))
+	for _, mid := range mids {
+		if !seen[mid] {
+			seen[mid] = true
+			acc = append(acc, mid)
+		}
+	}
+	return acc
 }
 
 // RunMachines presents the message to the machines returned by
